@@ -118,11 +118,31 @@ func TestC18(t *testing.T) {
 				}
 				hs = append(hs, h)
 			}
+			// keys handed out by an iterator are values handed to the caller as well
+			iterate := func() {
+				it, err := dm.Scan(ctx)
+				if err != nil {
+					return
+				}
+				defer it.Close()
+				for n := 0; n < 12 && it.Next(); n++ {
+					nh++
+					h := &handle{id: seq*100 + nh, str: true, s: it.Key()}
+					w.Emit(trace.Ev{"t": "retkey", "h": h.id, "v": digest([]byte(h.s)), "via": via})
+					hs = append(hs, h)
+				}
+			}
 			read("get")
+			if rng.Intn(2) == 0 {
+				iterate()
+			}
 			steps := 2 + rng.Intn(4)
 			for j := 0; j < steps; j++ {
 				after := ""
-				switch x := rng.Intn(8); x {
+				switch x := rng.Intn(9); x {
+				case 8:
+					iterate()
+					after = "an iterator handed out keys"
 				case 0: // overwrite
 					val = []byte(fmt.Sprintf("over-%d-%d-%055d", seq, j, rng.Intn(1000)))
 					b2 := append([]byte{}, val...)
